@@ -289,6 +289,69 @@ def fork_run(ctx, n_proc, names, delay, src):
         shutil.rmtree(d, ignore_errors=True)
 
 
+def _default_ctx_child(agg, nm, k, delay):
+    """runs in a worker process started with the default context; widens the check-then-claim window in this process"""
+    import time as _t
+    import panoptica.panoptica_aggregator as _PA
+    real = _PA._write_content
+
+    def slow(file, content):
+        if str(file).endswith("_panoptica_aggregator_tmp.tsv"):
+            _t.sleep(delay)
+        return real(file, content)
+    _PA._write_content = slow
+    a, b = subject_arrays(k)
+    with quiet():
+        agg.evaluate(a, b, nm)
+
+
+def default_context_run(ctx, names, delay, src):
+    """worker processes started the way `multiprocessing.Process` starts them after the library was imported (no context
+    chosen by the harness): the same subject submitted by several workers must still be recorded once"""
+    import multiprocessing as mp
+    inp = {"mode": "default-context-processes", "names": names, "delay": delay, "start_method": mp.get_start_method(allow_none=True), "src": src}
+    if _BLOCKED:
+        ctx.count("process_runs_skipped_after_blocking")
+        return
+    d = workdir("c16dflt")
+    try:
+        impl.serial_pool(True)
+        with quiet():
+            agg = PA.Panoptica_Aggregator(mk_evaluator(), os.path.join(d, "out.tsv"))
+        uniq = sorted(set(names))
+        code = {n: uniq.index(n) + 1 for n in uniq}
+        ps = [mp.Process(target=_default_ctx_child, args=(agg, nm, code[nm], delay)) for nm in names]
+        for p in ps:
+            p.start()
+        for p in ps:
+            p.join(90)
+        blocked = [p for p in ps if p.is_alive()]
+        for p in blocked:
+            p.kill()
+        with builtins.open(os.path.join(d, "out.tsv"), newline="") as f:
+            rows = list(csv.reader(f, delimiter="\t"))
+        ctx.case(inp, True)
+        ctx.count("default_context_process_runs")
+        got = sorted(r[0] for r in rows[1:])
+        fails = []
+        held = unleak()
+        if blocked:
+            _BLOCKED.append(src)
+            fails.append(f"{len(blocked)} worker processes still blocked after 90 s")
+        elif held:
+            fails.append(f"lock {held[0]} is still held after every call returned")
+        if rows[0][0] != "subject_name" or got != uniq:
+            fails.append(f"worker processes (start method {inp['start_method']}): output holds rows for {got}, expected exactly one per subject {uniq}")
+        else:
+            for r in rows[1:]:
+                if r != reference_row(r[0], code[r[0]]):
+                    fails.append(f"worker processes: row of {r[0]} differs from a sequential run")
+        if fails:
+            ctx.violation("C16 violated: " + fails[0], inp, impl={"rows": got}, key={"kind": "default-context"})
+    finally:
+        shutil.rmtree(d, ignore_errors=True)
+
+
 def pool_run(ctx, n_subjects, repeat, src):
     """the documented parallel entry point: the bound method aggregator.evaluate shipped to forked pool workers
     (NonDaemonicPool.starmap), every subject submitted `repeat` times; each task runs on an unpickled copy of the
@@ -584,6 +647,12 @@ def run(ctx):
     ctx.extra["module_lock_type"] = lock_mod + "." + type(aggsched._REAL["filelock"]).__name__
     if not lock_mod.startswith("multiprocessing"):
         ctx.disagree("module-level locks are process-shared (multiprocessing.Lock)", {"lock_type": lock_mod}, lock_mod, "multiprocessing.synchronize.Lock")
+    import multiprocessing as _mp
+    ctx.extra["start_method_after_import"] = _mp.get_start_method(allow_none=True)
+    if os.name == "posix" and _mp.get_start_method(allow_none=True) != "fork":
+        # the model's worker processes inherit the two module locks (fork); any other start method gives every worker its own pair
+        ctx.disagree("worker processes inherit the module-level locks (start method fork on posix)", {"start_method": _mp.get_start_method(allow_none=True)},
+                     _mp.get_start_method(allow_none=True), "fork")
     # all interleavings of the first three actions of two colliding threads, then run to completion
     for sched in sorted(set(itertools.permutations([0, 0, 0, 1, 1, 1]))):
         one_schedule(ctx, ["dup", "dup"], ["eval", "eval"], list(sched), "exh3x3")
@@ -604,6 +673,8 @@ def run(ctx):
         slow_group_threads(ctx, 4, f"slowgroups{k}")
     for k in range(ctx.scale(3, 30)):
         fork_run(ctx, 5, ["dup", "dup", "dup", "solo_a", "solo_b"], 0.15, f"fork{k}")
+    for k in range(ctx.scale(2, 10)):
+        default_context_run(ctx, ["dup", "dup", "dup", "solo_a"], 0.25, f"dflt{k}")
 
 
 def search(ctx):
@@ -611,12 +682,18 @@ def search(ctx):
         rand_case(ctx, "search", i)
     for k in range(5):
         fork_run(ctx, 5, ["dup", "dup", "dup", "solo_a", "solo_b"], 0.3, f"forksearch{k}")
+    for k in range(5):
+        default_context_run(ctx, ["dup", "dup", "dup", "solo_a"], 0.4, f"dfltsearch{k}")
 
 
 def replay(ctx, rec):
     i = rec["input"]
     if str(i.get("mode", "")).startswith("child interpreter with LC_ALL=C"):
         locale_case(ctx, "replay")
+        return
+    if i.get("mode") == "default-context-processes":
+        for k in range(3):
+            default_context_run(ctx, i["names"], i["delay"], "replay")
         return
     if i.get("mode") == "evaluation-interleaving":
         evaluation_interleaving(ctx, i.get("held_at", "map"), "replay")
